@@ -811,7 +811,19 @@ class Interp:
                     return Fraction(a)
                 return z3.ToReal(a)
             if kind == 'IntToInt':
-                return a          # range side conditions are the obligation's business
+                # narrowing to fewer than 64 bits wraps (exact two's-complement semantics); 64-bit and wider targets are read as mathematical
+                # integers (their range side conditions are the obligation's business)
+                tm = re.fullmatch(r'([ui])(8|16|32)', ty.strip())
+                if tm and not isinstance(a, bool):
+                    bits = int(tm.group(2))
+                    if isinstance(a, int):
+                        w = a % (1 << bits)
+                        return w if tm.group(1) == 'u' or w < (1 << (bits - 1)) else w - (1 << bits)
+                    if is_z3(a) and a.sort() == z3.IntSort():
+                        if tm.group(1) == 'u':
+                            return a % (1 << bits)
+                        return (a + (1 << (bits - 1))) % (1 << bits) - (1 << (bits - 1))
+                return a
             if kind.startswith('PointerCoercion') or kind in ('PtrToPtr', 'Transmute', 'Subtype'):
                 return a
             if kind == 'FloatToInt':
